@@ -549,8 +549,12 @@ class InProtocolBase(ProtocolMixin):
         except ValueError as e:
             match = cls._offset_re.match(string)
             if match:
-                return date(int(match.group('year')),
+                try:
+                    return date(int(match.group('year')),
                             int(match.group('month')), int(match.group('day')))
+                except ValueError as e2:
+                    # e.g. day is out of range for month
+                    raise ValidationError(string, "%%r: %s" % (e2,))
             else:
                 raise ValidationError(string,
                                          "%%r: %s" % repr(e).replace("%", "%%"))
@@ -567,8 +571,12 @@ class InProtocolBase(ProtocolMixin):
         except ValueError as e:
             match = cls._offset_re.match(string)
             if match:
-                return date(int(match.group('year')),
+                try:
+                    return date(int(match.group('year')),
                             int(match.group('month')), int(match.group('day')))
+                except ValueError as e2:
+                    # e.g. day is out of range for month
+                    raise ValidationError(string, "%%r: %s" % (e2,))
             else:
                 # the message from ValueError is quite nice already
                 raise ValidationError(str(e), "%s")
